@@ -90,6 +90,7 @@ LEAVES_Q = [
     ("range", 0, 2),
 ]
 LEAVES_T = LEAVES_Q + [
+    ("uniform", 0.5, 1.5),
     ("uniform", 0, 2),
     ("discrete", ((0, 2), (1, 1), (3, 1))),
     ("range", -1, 2),
@@ -114,6 +115,11 @@ def dependent(names, prims, thorough):
             ("un", "abs", ("n", a)),
             ("call", "f", N(a)),
             ("tuple", N(a), 7),
+            # mixed int / float operands (reflected-operator fallback of lifted operators)
+            ("bin", "-", N(a), 0.5),
+            ("bin", "-", 0.5, N(a)),
+            ("bin", "/", N(a), 2.0),
+            ("bin", "**", 2.0, N(a)),
         ]
         if thorough:
             out += [
@@ -124,6 +130,10 @@ def dependent(names, prims, thorough):
                 ("bin", "%", 5, N(a)),
                 ("call", "g", N(a)),
                 ("uniform", N(a), N(a), 0),
+                ("bin", "%", N(a), 1.5),
+                ("bin", "//", N(a), 0.5),
+                ("bin", "**", N(a), 2),
+                ("bin", "/", 3.0, ("n", a)) if False else ("bin", "-", 1.5, N(a)),
             ]
     for a in prims:
         out.append(("resample", a))
